@@ -173,6 +173,9 @@ func cmdCheck(args []string) int {
 		}
 		n := 0
 		for _, o := range u.VC.Obls {
+			if o.Deep && *tier != "thorough" {
+				continue // exit-reachability covers: thorough tier only
+			}
 			if propOf(o, prop) {
 				run.selected = append(run.selected, o)
 				n++
